@@ -38,6 +38,15 @@ def _child_built(v):
   return sigs.SIGS[sigs.sig_index(0, 1, 0, 0, 0, 0)][0](v)
 
 
+SPECIAL = [None, 0, False, '', (), [], {}, 'args', 1.5, (None, 0)]
+XNAMES = ['zz', 'p0', 'args', 'kw', 'k0', 'self']
+
+
+def _special(nest):
+  v = SPECIAL[nest - 6]
+  return type(v)(v) if isinstance(v, (list, dict)) else v     # fresh mutable containers
+
+
 def _wrap(nest, x):
   if nest == 1:
     return x
@@ -51,9 +60,13 @@ def _wrap(nest, x):
 
 
 def c01_build(sig: int, how: int, s0: bool, s1: bool, s2: bool, s3: bool, so: bool, sx: bool, nva: int,
-              v0: int, v1: int, v2: int, v3: int, vo: int, vx: int, vv: int, nest: int, npos: int) -> bool:
+              v0: int, v1: int, v2: int, v3: int, vo: int, vx: int, vv: int, nest: int, npos: int, xn: int) -> bool:
   """
-  require: 0 <= sig < 324 and 0 <= how <= 1 and 0 <= nva <= 2 and 0 <= nest <= 5 and 0 <= npos <= 6
+  nest 1..5: a child Config inside a wrapper at argument position npos; nest 6..15: a special leaf
+  (None, falsy values, empty containers, ...) at that position.  xn selects the name of the extra
+  **kwargs entry (including names that collide with positional-only / *args / **kw parameters).
+  require: 0 <= sig < 324 and 0 <= how <= 1 and 0 <= nva <= 2 and 0 <= nest <= 15 and 0 <= npos <= 6
+  require: 0 <= xn <= 5
   """
   fn, shape = sigs.SIGS[sig]
   ref = RefArgs(shape)
@@ -66,19 +79,28 @@ def c01_build(sig: int, how: int, s0: bool, s1: bool, s2: bool, s3: bool, so: bo
   cvar = [vv + j for j in range(nva)] if shape.va else []
   evar = list(cvar)
   if nest:
-    child = _child(vv + 100)
-    built = _child_built(vv + 100)
+    if nest >= 6:
+      cval, eval_ = _special(nest), _special(nest)
+    else:
+      cval, eval_ = _wrap(nest, _child(vv + 100)), _wrap(nest, _child_built(vv + 100))
     if npos < 4:
       if npos < F:
-        cvals[npos], evals[npos] = _wrap(nest, child), _wrap(nest, built)
+        cvals[npos], evals[npos] = cval, eval_
     elif npos == 4:
-      cvo, evo = _wrap(nest, child), _wrap(nest, built)
+      cvo, evo = cval, eval_
     elif npos == 5:
-      cvx, evx = _wrap(nest, child), _wrap(nest, built)
+      cvx, evx = cval, eval_
     elif cvar:
-      cvar[0], evar[0] = _wrap(nest, child), _wrap(nest, built)
+      cvar[0], evar[0] = cval, eval_
   use_o = bool(shape.ko) and so
   use_x = bool(shape.vk) and sx
+  xname = XNAMES[xn]
+  # a colliding extra name is only legal when it cannot be bound to a named parameter by keyword
+  if xname in ref.pos_names[shape.p:] or xname == 'o0':
+    use_x = False
+  collide = (xname != 'zz')
+  if xname in ref.pos_names[:shape.p] and not mask[ref.pos_names.index(xname)]:
+    use_x = False     # f(p0=..) without a positional p0 is not a legal call / constructor form
   # ---- configure
   prefix = 0
   while prefix < F and mask[prefix]:
@@ -89,7 +111,7 @@ def c01_build(sig: int, how: int, s0: bool, s1: bool, s2: bool, s3: bool, so: bo
     if use_o:
       kwargs['o0'] = cvo
     if use_x:
-      kwargs['zz'] = cvx
+      kwargs[xname] = cvx
     cfg = fdl.Config(fn, *cvals[:prefix], *cvar, **kwargs)
   else:
     cfg = fdl.Config(fn)
@@ -104,7 +126,19 @@ def c01_build(sig: int, how: int, s0: bool, s1: bool, s2: bool, s3: bool, so: bo
     if use_o:
       cfg.o0 = cvo
     if use_x:
-      cfg.zz = cvx
+      if collide:
+        # names of positional-only / variadic parameters cannot be assigned by attribute; they
+        # can only arrive through the constructor's **kwargs
+        cfg = fdl.Config(fn, *cvals[:prefix], **{xname: cvx})
+        for i in range(prefix, F):
+          if mask[i]:
+            cfg[i] = cvals[i]
+        if cvar:
+          cfg[fdl.VARARGS:] = cvar
+        if use_o:
+          cfg.o0 = cvo
+      else:
+        cfg.zz = cvx
   for i in range(F):
     if mask[i]:
       ref.fixed[i] = cvals[i]
@@ -112,7 +146,7 @@ def c01_build(sig: int, how: int, s0: bool, s1: bool, s2: bool, s3: bool, so: bo
   if use_o:
     ref.ko = cvo
   if use_x:
-    ref.extra['zz'] = cvx
+    ref.extra[xname] = cvx
   # ---- 1. Fiddle's own report equals what was configured
   view = cfg[:]
   rview = ref.view()
@@ -150,14 +184,14 @@ def c01_build(sig: int, how: int, s0: bool, s1: bool, s2: bool, s3: bool, so: bo
       ko = (200,)
     else:
       impossible = True
-  kw = {'zz': evx} if use_x else {}
+  kw = {xname: evx} if use_x else {}
   sigs.reset_log()
   try:
     got = fdl.build(cfg)
     raised = False
   except Exception:  # pylint: disable=broad-except
     raised = True
-  note('c01', tuple(sorted(map(str, cfg.__arguments__))), nest, npos if nest else -1, how, raised)
+  note('c01', tuple(sorted(map(str, cfg.__arguments__))), nest, npos if nest else -1, how, raised, xn if use_x else -1)
   if impossible:
     return raised
   if raised:
@@ -236,7 +270,7 @@ def c01_missing(case: int, v: int) -> bool:
 
 
 _SMOKE = dict(sig=0, how=0, s0=True, s1=True, s2=True, s3=True, so=True, sx=True, nva=2, v0=1, v1=2, v2=3, v3=4,
-              vo=5, vx=6, vv=7, nest=0, npos=0)
+              vo=5, vx=6, vv=7, nest=0, npos=0, xn=0)
 
 
 def obligations(tier, seed):
@@ -258,15 +292,19 @@ def obligations(tier, seed):
   cubes = []
   gap_free = '(s0 or not s1) and (s1 or not s2) and (s2 or not s3)'
   for s in plain:
-    cubes.append(Cube(f's{s}_h0', [], dict(sig=s, how=0, nest=0, npos=0), est=200))
+    cubes.append(Cube(f's{s}_h0', [], dict(sig=s, how=0, nest=0, npos=0, xn=0), est=200))
     # constructor path: only gap-free prefixes reach it (other masks fall back to the edit path)
-    cubes.append(Cube(f's{s}_h1', [gap_free], dict(sig=s, how=1, nest=0, npos=0), est=60))
+    cubes.append(Cube(f's{s}_h1', [gap_free], dict(sig=s, how=1, nest=0, npos=0, xn=0), est=60))
+    if sigs.SIGS[s][1].vk:
+      # extra **kwargs names that collide with positional-only / *args / **kw parameter names
+      for xn in range(1, 6):
+        cubes.append(Cube(f's{s}_x{xn}', [], dict(sig=s, how=s % 2, nest=0, npos=0, xn=xn, sx=True), est=100))
   for s in nested:
     shape = sigs.SIGS[s][1]
-    for nest in (1, 2, 3, 4, 5):
+    for nest in range(1, 16):
       for npos in range(7):
         # masks: the nested argument must be set, so bind its flag in the cube
-        fix = dict(sig=s, how=nest % 2, nest=nest, npos=npos)
+        fix = dict(sig=s, how=nest % 2, nest=nest, npos=npos, xn=0)
         if npos < 4:
           if npos >= shape.p + shape.k:
             continue
